@@ -33,6 +33,11 @@ def gen(tier, rnd):
     base = ['R 1', 'R 2 hold', 'C 3', 'O 4', 'A 5', 'R 6 hold', 'Q 6', 'S 6', 'I 12000', 'N', 'I 100', 'a 5', 'U 2', 'I 11000', 'K 4', 'I 11000',
             'U 6', 'I 100000', 'R 1', 'O 1', 'N', 'Q 1', 'N', 'N', 'N', 'N', 'N', 'N', 'I 200000']
     case(base, 10)
+    # re-registration of the same observation under a new token, then cancel: the session must go idle and be reclaimed
+    for to in (1, 10):
+        case(['O 1', 'P 1', 'I 100', 'p 1', 'I %d' % (to * 1000 + 500), 'I 1000', 'R 1', 'I %d' % (to * 2000)], to)
+        case(['O 1', 'N', 'P 1', 'N', 'P 1', 'O 1', 'N', 'K 1', 'I %d' % (to * 1000 + 500), 'I 1000'], to)
+        case(['O 1', 'O 2', 'P 1', 'P 2', 'p 2', 'o 1', 'p 1', 'I %d' % (to * 3000), 'N', 'F'], to)
     case(base, 1)
     case(base, 0)
     case(base, 10, 2)
@@ -65,10 +70,12 @@ def gen(tier, rnd):
                 ops.append('%s %d%s' % (rnd.choice('RC'), p, ' hold' if h else ''))
                 if h:
                     heldp.add(p)
-            elif r < 0.30:
+            elif r < 0.27:
                 ops.append('O %d' % p)
+            elif r < 0.30:
+                ops.append('P %d' % p)
             elif r < 0.34:
-                ops.append('o %d' % p)
+                ops.append('%s %d' % (rnd.choice('op'), p))
             elif r < 0.40:
                 ops.append('A %d' % p)
             elif r < 0.46:
